@@ -301,6 +301,15 @@ func c1Namespaces(c *Ctx, rule string) {
 					if d != -o {
 						bad = append(bad, "the entry closes "+itoa(int(-d))+" more brace(s) than it opened, with "+itoa(int(o))+" namespace(s) open in the context and "+itoa(int(user))+" opened by fields ("+tag+")")
 					}
+				case fn.Name() == "OpenNamespace":
+					if d != 1 || final != o+1 {
+						bad = append(bad, "OpenNamespace must write one '{' and count it: net braces "+itoa(int(d))+", counter "+itoa(int(o))+" → "+itoa(int(final))+" ("+tag+")")
+					}
+				case strings.HasPrefix(fn.Name(), "Add") || strings.HasPrefix(fn.Name(), "Append"):
+					// a member or element is a complete value: whatever was open before is still open, and counted
+					if d != 0 || final != o {
+						bad = append(bad, "a complete member/element must leave the nesting as it found it: net braces "+itoa(int(d))+", counter "+itoa(int(o))+" → "+itoa(int(final))+" ("+tag+")")
+					}
 				default:
 					if d != final-o {
 						bad = append(bad, "net braces written "+itoa(int(d))+" but the counter went from "+itoa(int(o))+" to "+itoa(int(final))+" ("+tag+")")
